@@ -206,8 +206,16 @@ class GrandCanonical(
 
     def save_state(self) -> None:
         """Save the current state of the context and update move labels."""
+        notified: list = []
+
         for move_storage in self.moves.values():
-            move_storage.move.on_atoms_changed(
+            move = move_storage.move
+
+            if any(move is other for other in notified):
+                continue
+
+            notified.append(move)
+            move.on_atoms_changed(
                 self.context._added_indices, self.context._deleted_indices
             )
 
